@@ -19,7 +19,9 @@ import common
 from common import Case, sx, parse_sx
 
 PROP = "C12"
-RULE = ("life: sequences of 5-14 steps drawn from load(file with 1-3 @service functions, 1-2 names each, supports_response "
+RULE = ("life: sequences of 5-14 steps drawn from overlapping calls (2-3 concurrent calls of one service with different data, "
+        "the function suspends in task.sleep between receiving and using its arguments; same duration or first-started-"
+        "finishes-first) and from load(file with 1-3 @service functions, 1-2 names each, supports_response "
         "none|optional|only) / unload / run-time define|redefine|delete inside driver functions / call(data, "
         "return_response) over contexts a,b,c, services pyscript.s1, pyscript.s2, test.s3, variables f,g,h; the bulk avoids "
         "the three open hazard situations (four more were repaired and are ordinary cases now), dedicated scenario families inject exactly one of them each; every case is "
@@ -237,7 +239,7 @@ class LifeGen:
 
     def step(self):
         r = self.rng
-        kind = r.choices(["load", "unload", "rundef", "rundel", "call"], [4, 1, 5, 3, 6])[0]
+        kind = r.choices(["load", "unload", "rundef", "rundel", "call", "calls"], [4, 1, 5, 3, 5, 2])[0]
         if not self.loaded:
             kind = "load"
         if kind == "load":
@@ -252,13 +254,29 @@ class LifeGen:
             ctx = r.choice(sorted(self.loaded))
             live = [f["var"] for f in self.d.funcs if f["ctx"] == ctx]
             o = {"k": "rundel", "ctx": ctx, "fn": r.choice(FNS), "var": r.choice(live) if live and r.random() < 0.85 else r.choice(VARS)}
+        elif kind == "calls":
+            live = sorted({s for f in self.d.funcs for s, _ in f["eff"]})
+            o = overlap_op(r, r.choice(live) if live and r.random() < 0.9 else r.choice(SVCS), r.random() < 0.6)
         else:
             o = {"k": "call", "svc": r.choice(SVCS), "rr": r.random() < 0.5, "data": r.choice(DATA)}
         if o is None:
             return
-        if o["k"] != "call" and hazards({"legacy": self.legacy, "ops": self.ops + [o]}):
+        if o["k"] not in ("call", "calls") and hazards({"legacy": self.legacy, "ops": self.ops + [o]}):
             return
         self.push(o)
+
+
+def overlap_op(rng, svc, rr):
+    """2-3 calls of one service, started together; the function suspends for `delay` (virtual seconds) – same duration
+    for all, or the first started finishes first – so the calls overlap and do not finish in LIFO order"""
+    n = rng.choice([2, 2, 3])
+    same = rng.random() < 0.5
+    datas = []
+    for j in range(n):
+        data = {"tag": f"t{j}", "delay": 0.05 if same else round(0.03 * (j + 1), 3)}
+        data.update(rng.choice(DATA))
+        datas.append(data)
+    return {"k": "calls", "svc": svc, "rr": rr, "datas": datas}
 
 
 def clean_case(rng, idx):
@@ -320,6 +338,13 @@ def hazard_cases(rng, legacy):
         {"k": "load", "ctx": c1, "defs": [{"var": v1, "gen": 1, "decl": [[s1, R()]]}]},
         {"k": "load", "ctx": c2, "defs": [{"var": v1, "gen": 2, "decl": [[s1, R()], [s2, R()]]}]}] + calls_for([s1, s2], rng) + [
         {"k": "rundef", "ctx": c2, "fn": "opA", "var": v2, "gen": 3, "decl": [[s2, R()], [s1, R()]]}] + calls_for([s1, s2], rng)))
+    # overlapping calls (no hazard: every call must be answered with its own data, in both subsystems)
+    rs = rng.choice(["optional", "only"])
+    fam.append(("overlap", [
+        {"k": "load", "ctx": c1, "defs": [{"var": v1, "gen": 1, "decl": [[s1, rs]]}, {"var": v2, "gen": 2, "decl": [[s2, "none"]]}]},
+        overlap_op(rng, s1, True), overlap_op(rng, s2, False), overlap_op(rng, s1, rs != "only"),
+        {"k": "rundef", "ctx": c1, "fn": "opA", "var": v1, "gen": 3, "decl": [[s1, rs]]},
+        overlap_op(rng, s1, True), {"k": "call", "svc": s1, "rr": True, "data": {"x": 1}}]))
     # ownership alone (single refused name) is NOT a hazard: the second context must fail and change nothing
     fam.append(("owner", [
         {"k": "load", "ctx": c1, "defs": [{"var": v1, "gen": 1, "decl": [[s1, R()]]}]},
@@ -389,8 +414,14 @@ def func_src(var, gen, decl, indent, multi=False):
     lines = []
     for s, r in decl:
         lines.append(f"{pad}@service({s!r}, supports_response={r!r})" if r != "none" else f"{pad}@service({s!r})")
-    lines += [f"{pad}def {var}(**kw):", f'{pad}    """gen {gen}"""', f"{pad}    rec('call', {gen}, kw)",
-              f"{pad}    return {{'gen': {gen}}}"]
+    # `delay` in the call data makes the function suspend between receiving its arguments and using them; what it
+    # records and returns afterwards is what it sees THEN.  task.current_task() ties both records to the call.
+    lines += [f"{pad}def {var}(**kw):", f'{pad}    """gen {gen}"""',
+              f"{pad}    rec('enter', {gen}, kw.get('tag'), task.current_task())",
+              f"{pad}    if kw.get('delay'):",
+              f"{pad}        task.sleep(kw['delay'])",
+              f"{pad}    rec('call', {gen}, kw, task.current_task())",
+              f"{pad}    return {{'gen': {gen}, 'tag': kw.get('tag')}}"]
     return lines
 
 
@@ -541,6 +572,38 @@ def run_life(p):
                     done = [r for r in env.records[nrec:] if r[1] == "done" and r[2] == i]
                     steps.append({"state": observe(env.hass, svcs), "events": [list(e) for e in events],
                                   "ran": len(done)})
+                elif k == "calls":
+                    # 2-3 calls of one service that overlap in time: all are started, then the virtual clock runs
+                    import asyncio
+                    dom, name = o["svc"].split(".")
+                    tasks = [asyncio.ensure_future(env.hass.services.async_call(
+                        dom, name, dict(data), blocking=True, return_response=o["rr"])) for data in o["datas"]]
+                    await env.settle(max([d.get("delay", 0) for d in o["datas"]] + [0]) + 0.2)
+                    recs = env.records[nrec:]
+                    task_of = {r[3]: r[4] for r in recs if r[1] == "enter"}          # tag -> asyncio task
+                    results = []
+                    for data, t in zip(o["datas"], tasks):
+                        if not t.done():
+                            t.cancel()
+                            results.append({"call": ["harness", "call did not finish"], "response": None})
+                            continue
+                        exc = t.exception()
+                        if isinstance(exc, ServiceNotFound):
+                            results.append({"call": "notfound", "response": None})
+                        elif isinstance(exc, ServiceValidationError):
+                            results.append({"call": "invalid", "response": None})
+                        elif exc is not None:
+                            results.append({"call": ["raise", type(exc).__name__], "response": None})
+                        else:
+                            mine = [r for r in recs if r[1] == "call" and r[4] is task_of.get(data.get("tag"))]
+                            if len(mine) != 1:
+                                results.append({"call": ["harness", f"{len(mine)} call records for tag {data.get('tag')}"],
+                                                "response": canon(t.result())})
+                            else:
+                                kw = mine[0][3]
+                                results.append({"call": ["ran", mine[0][2], sorted([kk, canon(vv)] for kk, vv in kw.items()),
+                                                         1 if o["rr"] else 0], "response": canon(t.result())})
+                    steps.append({"calls": results})
                 else:
                     dom, name = o["svc"].split(".")
                     try:
@@ -706,6 +769,9 @@ def life_line(p):
             dops += [["define", o["ctx"], o["fn"], o["var"], o["gen"], o["decl"]], ["obs"]]
         elif k == "rundel":
             dops += [["delete", o["ctx"], o["var"]], ["obs"]]
+        elif k == "calls":
+            dops.append(["calls", o["svc"], 1 if o["rr"] else 0, "CTX",
+                         [sorted([kk, canon(vv)] for kk, vv in data.items()) for data in o["datas"]]])
         else:
             dops.append(["call", o["svc"], 1 if o["rr"] else 0, "CTX", sorted([kk, canon(vv)] for kk, vv in o["data"].items())])
     return "C12 " + sx(["life", "legacy" if p["legacy"] else "new", SVCS, dops])
@@ -717,6 +783,8 @@ def render_life_impl(p):
         if "state" in st:
             under = any(e[0] == "rem" and e[1] == 0 for e in st["events"])
             out.append(["state"] + st["state"] + [["flags", 0, 1 if under or any_under(p, st) else 0]])
+        elif "calls" in st:
+            out.append(["calls"] + [["call", norm_call(r["call"])] for r in st["calls"]])
         else:
             out.append(["call", norm_call(st["call"])])
     return sx(out)
@@ -739,12 +807,16 @@ def norm_call(c):
 
 def norm_steps(x):
     out = []
+
+    def one(c):
+        if isinstance(c, list) and c[0] == "ran":
+            c = ["ran", int(c[1]), sorted([[k, v] for k, v in c[2]]), int(c[3])]
+        return ["call", c]
     for st in x:
         if st[0] == "call":
-            c = st[1]
-            if isinstance(c, list) and c[0] == "ran":
-                c = ["ran", int(c[1]), sorted([[k, v] for k, v in c[2]]), int(c[3])]
-            out.append(["call", c])
+            out.append(one(st[1]))
+        elif st[0] == "calls":
+            out.append(["calls"] + [one(c[1]) for c in st[1:]])
         else:
             rows = []
             for row in st[1:]:
@@ -793,12 +865,49 @@ def split(outline):
 
 
 # ------------------------------------------------------------------ verdict: the property on the observations
+def judge_call(d, bad, i, svc, rr, data, st, what, pre):
+    """one call (alone or overlapping with others): the most recent live definition runs with THIS call's data plus
+    trigger_type='service' and context, and THIS call gets its result back when a response is requested"""
+    want = d.handler(svc)
+    got = st["call"]
+    if want is None:
+        exp = "notfound"
+    elif (rr and want[1] == "none") or (not rr and want[1] == "only"):
+        exp = "invalid"
+    else:
+        kw = {"trigger_type": canon("service"), "context": "CTX"}
+        kw.update({k: canon(v) for k, v in data.items()})
+        exp = ["ran", want[0], sorted([k, v] for k, v in kw.items()), 1 if rr else 0]
+    if exp == "invalid" and not rr and isinstance(got, list) and got[0] == "ran" and got[1] == want[0]:
+        # Home Assistant's "this service only returns a response" refusal is not part of the property: the legacy
+        # subsystem hands HA the string "only" instead of the enum, HA then runs the call (nothing is returned)
+        exp = got = None
+        kw = {"trigger_type": canon("service"), "context": "CTX"}
+        kw.update({k: canon(v) for k, v in data.items()})
+        if norm_call(st["call"])[2] != sorted([k, v] for k, v in kw.items()):
+            bad.append((i, {svc}, pre + "call-kwargs", f"step {i} {what}{svc}: ran with {norm_call(st['call'])[2]!r:.200} "
+                                                       f"instead of this call's data {sorted(kw.items())!r:.200}"))
+            return
+    if norm_call(got) != exp:
+        sym = "call"
+        if isinstance(got, list) and got[0] == "ran" and isinstance(exp, list) and got[2] != exp[2]:
+            sym = "call-kwargs"
+        bad.append((i, {svc}, pre + sym, f"step {i} {what}{svc} return_response={rr} data={data}: {norm_call(got)!r:.220} instead of {exp!r:.220}"))
+    elif got is None:
+        if st["response"] != canon(None):
+            bad.append((i, {svc}, pre + "response", f"step {i} {what}{svc}: returned {st['response']} though no response was requested"))
+    elif isinstance(exp, list):
+        wantresp = canon({"gen": exp[1], "tag": data.get("tag")}) if rr else canon(None)
+        if st["response"] != wantresp:
+            bad.append((i, {svc}, pre + "response", f"step {i} {what}{svc} data={data}: returned {st['response']} instead of {wantresp}"))
+
+
 def judge_life(p):
     """[(step, services, symptom, text)] – every step at which the real code is not in the state the declarations demand"""
     d = Decls()
     bad = []
     for i, (o, st) in enumerate(zip(p["ops"], p["_obs"])):
-        if o["k"] != "call":
+        if o["k"] not in ("call", "calls"):
             apply_op(d, o)
             if o["k"] in ("rundef", "rundel") and st.get("ran") != 1:
                 bad.append((i, set(SVCS), "driver", f"step {i}: the driver function ran {st.get('ran')} times"))
@@ -815,33 +924,11 @@ def judge_life(p):
                     bad.append((i, {key}, "wrong-response-mode", f"step {i} {o['k']}: {key} supports_response={resp}, declared {want[1]}"))
             if any(e[0] == "rem" and e[1] == 0 for e in st["events"]):
                 bad.append((i, set(SVCS), "remove-underflow", f"step {i}: service_remove reached with count 0: {st['events']}"))
+        elif o["k"] == "calls":
+            for j, (data, res) in enumerate(zip(o["datas"], st["calls"])):
+                judge_call(d, bad, i, o["svc"], o["rr"], data, res, f"overlapping call {j + 1}/{len(o['datas'])} of ", "overlap-")
         else:
-            want = d.handler(o["svc"])
-            got = st["call"]
-            if want is None:
-                exp = "notfound"
-            elif (o["rr"] and want[1] == "none") or (not o["rr"] and want[1] == "only"):
-                exp = "invalid"
-            else:
-                kw = {"trigger_type": canon("service"), "context": "CTX"}
-                kw.update({k: canon(v) for k, v in o["data"].items()})
-                exp = ["ran", want[0], sorted([k, v] for k, v in kw.items()), 1 if o["rr"] else 0]
-            if exp == "invalid" and not o["rr"] and isinstance(got, list) and got[0] == "ran" and got[1] == want[0]:
-                # Home Assistant's "this service only returns a response" refusal is not part of the property: the legacy
-                # subsystem hands HA the string "only" instead of the enum, HA then runs the call (nothing is returned)
-                exp = got = None
-            if norm_call(got) != exp:
-                sym = "call"
-                if isinstance(got, list) and got[0] == "ran" and isinstance(exp, list) and got[2] != exp[2]:
-                    sym = "call-kwargs"
-                bad.append((i, {o["svc"]}, sym, f"step {i} call {o['svc']} return_response={o['rr']}: {norm_call(got)!r:.200} instead of {exp!r:.200}"))
-            elif got is None:
-                if st["response"] != canon(None):
-                    bad.append((i, {o["svc"]}, "response", f"step {i} call {o['svc']}: returned {st['response']} though no response was requested"))
-            elif isinstance(exp, list):
-                wantresp = canon({"gen": exp[1]}) if o["rr"] else canon(None)
-                if st["response"] != wantresp:
-                    bad.append((i, {o["svc"]}, "response", f"step {i} call {o['svc']}: returned {st['response']} instead of {wantresp}"))
+            judge_call(d, bad, i, o["svc"], o["rr"], o["data"], st, "call ", "")
     return bad
 
 
@@ -977,6 +1064,10 @@ def extra_coverage(cases):
             if o["k"] == "call":
                 k = st["call"][0] if isinstance(st["call"], list) else st["call"]
                 calls[k] = calls.get(k, 0) + 1
+            if o["k"] == "calls":
+                for r_ in st["calls"]:
+                    k = r_["call"][0] if isinstance(r_["call"], list) else r_["call"]
+                    calls["overlapping:" + str(k)] = calls.get("overlapping:" + str(k), 0) + 1
             if o["k"] == "load" and not p["legacy"] and len(o["defs"]) > 1:
                 regorder["new-loads-with-several-managers"] += 1
                 gens = [e[1] for e in st["events"] if e[0] == "reg"]
